@@ -35,6 +35,7 @@ pub fn run_scenario(sc: &J, out: &mut Vec<J>) {
         "sd2" => Kind::Sd2,
         _ => Kind::Sdhc,
     };
+    crate::set_log(sc.get("log").and_then(|x| x.as_bool()).unwrap_or(false));
     let crc = sc.get("crc").and_then(|x| x.as_bool()).unwrap_or(true);
     let csdspec = &sc["csd"];
     let ver = ju(csdspec, "ver", if kind == Kind::Sdhc { 1 } else { 0 }) as u32;
